@@ -6,15 +6,17 @@
   second-pass / join glue, are exercised by the degenerate stream of the harness, not proved.
 
   FULL STATEMENT (kept visible, not proved): "for all well-formed maps, seed tables, modes and
-  allowed parameters `runProgram … ≠ .error _`".  Missing for the full statement: totality of
-  `unalignedFragments` (needs: a '+' record's start/end coordinates occur in the query's position
-  list), of `joinRows` on rows whose first segment is empty or pair-less, and of the HitEnum walk on
-  the (known-finding) candidates that are not valid matchings.
+  allowed parameters `runProgram … ≠ .error _`".  Proved: single-pass and 'separate' mode are total
+  (`C07_single_mode_total`, `C07_separate_mode_total`).  Missing for the full statement: totality of
+  `joinRows` on rows whose first segment was trimmed by the resolver (left-trimmed segments may end
+  on unpaired positions), and of the HitEnum walk on the (known-finding) candidates that are not
+  valid matchings.
 -/
 import Props.Defs
 import Props.C18
 import Proofs.SrcBlind
 import Proofs.Compose
+import Proofs.SecondPass
 namespace Coma.Props
 open Coma Coma.Spec
 
@@ -32,6 +34,41 @@ theorem C07_first_pass_total (cfg : Cfg) (hP : GoodParams cfg.P) (refs : List OM
     ∃ rows, executeSingle cfg refs t qs it = .ok rows :=
   Coma.Proofs.executeSingle_total cfg hP refs t qs it hrefs hqs hseeds
     (fun r hr q hq peaks rev => Coma.Proofs.alignerAlign_total cfg.P cfg.C hP r q peaks rev it (hrefs r hr) (hqs q hq))
+
+/-- computing the unaligned fragments of a first-pass record never raises: the query is found by
+    id and the record's start/end coordinates occur in its position list -/
+theorem C07_fragments_total (P : Params) (C : ChainCfg) (hP : GoodParams P) (ref q : OMap) (peaks : List Int)
+    (rev : Bool) (it : Int) (hr : StrictAscending ref.positions) (hq : StrictAscending q.positions)
+    (hshift : q.shift = 0) (row : Row) (h : alignerAlign P C ref q peaks rev it = .ok row) (hp : row.pairs ≠ [])
+    (queries : List OMap) (hfind : queries.find? (fun m => m.id = row.queryId) = some q) :
+    ∃ frags, unalignedFragments row queries = .ok frags ∧
+      ∀ f ∈ frags, StrictAscending f.positions ∧ f.id = q.id :=
+  Coma.Proofs.unalignedFragments_total P C hP ref q peaks rev it hr hq hshift row h hp queries hfind
+
+/-- the second pass never raises -/
+theorem C07_second_pass_total (cfg : Cfg) (hP : GoodParams cfg.P) (refs : List OMap) (t : SeedTable) (qs : List OMap) (it : Int)
+    (hrefs : ∀ r ∈ refs, StrictAscending r.positions) (hqs : ∀ q ∈ qs, StrictAscending q.positions ∧ q.shift = 0)
+    (hids : (qs.map (·.id)).Nodup)
+    (hseeds : ∀ k, ∀ s ∈ t.lookup k, ∃ r ∈ refs, r.id = s.refId)
+    (first : List Row) (h1 : executeSingle cfg refs t qs it = .ok first) :
+    ∃ second, secondPass cfg refs t qs first it = .ok second :=
+  Coma.Proofs.secondPass_total cfg hP refs t qs it hrefs hqs hids hseeds first h1
+
+/-- whole-run totality of the alignment logic for the modes without a join: 'separate' (first- and
+    second-pass files) and single-pass.  (The join of 'joined' / 'all' / 'best' is the part of the
+    full statement that is not proved.) -/
+theorem C07_separate_mode_total (cfg : Cfg) (hP : GoodParams cfg.P) (refs : List OMap) (t : SeedTable) (qs : List OMap) (it : Int)
+    (hrefs : ∀ r ∈ refs, StrictAscending r.positions) (hqs : ∀ q ∈ qs, StrictAscending q.positions ∧ q.shift = 0)
+    (hids : (qs.map (·.id)).Nodup)
+    (hseeds : ∀ k, ∀ s ∈ t.lookup k, ∃ r ∈ refs, r.id = s.refId) :
+    ∃ out, execute cfg .separate refs t qs it = .ok out :=
+  Coma.Proofs.execute_separate_total cfg hP refs t qs it hrefs hqs hids hseeds
+
+theorem C07_single_mode_total (cfg : Cfg) (hP : GoodParams cfg.P) (refs : List OMap) (t : SeedTable) (qs : List OMap) (it : Int)
+    (hrefs : ∀ r ∈ refs, StrictAscending r.positions) (hqs : ∀ q ∈ qs, StrictAscending q.positions ∧ q.shift = 0)
+    (hseeds : ∀ k, ∀ s ∈ t.lookup k, ∃ r ∈ refs, r.id = s.refId) :
+    ∃ out, execute cfg .single refs t qs it = .ok out :=
+  Coma.Proofs.execute_single_total cfg hP refs t qs it hrefs hqs hseeds
 
 /-- a query that cannot be seeded (no correlation peak: too long for every reference, too few
     labels) contributes no record and does not change the records of the others -/
